@@ -1112,10 +1112,12 @@ pub fn lwr(
     let block_index = {
         let block = control_flow_graph.new_block()?;
 
-        let address = Expr::sub(Expr::add(base, offset)?, expr_const(3, 32))?;
+        let ea = Expr::add(base, offset)?;
+        let address = Expr::sub(ea.clone(), expr_const(3, 32))?;
 
-        // create a bit mask for dst and the loaded result
-        let mask_bytes = Expr::and(address.clone(), expr_const(3, 32))?;
+        // create a bit mask for dst and the loaded result: the (EA % 4) + 1
+        // low-order bytes take part (all four when EA % 4 == 3)
+        let mask_bytes = Expr::add(Expr::and(ea, expr_const(3, 32))?, expr_const(1, 32))?;
         let mask_bits = Expr::shl(mask_bytes, expr_const(3, 32))?;
         let mask_bit = Expr::shl(expr_const(1, 32), mask_bits)?;
         let mask = Expr::sub(mask_bit, expr_const(1, 32))?;
@@ -2471,10 +2473,12 @@ pub fn swr(
     let block_index = {
         let block = control_flow_graph.new_block()?;
 
-        let address = Expr::sub(Expr::add(base, offset)?, expr_const(3, 32))?;
+        let ea = Expr::add(base, offset)?;
+        let address = Expr::sub(ea.clone(), expr_const(3, 32))?;
 
-        // create a bit mask for dst and the loaded result
-        let mask_bytes = Expr::and(address.clone(), expr_const(3, 32))?;
+        // create a bit mask for dst and the loaded result: the (EA % 4) + 1
+        // low-order bytes take part (all four when EA % 4 == 3)
+        let mask_bytes = Expr::add(Expr::and(ea, expr_const(3, 32))?, expr_const(1, 32))?;
         let mask_bits = Expr::shl(mask_bytes, expr_const(3, 32))?;
         let mask_bit = Expr::shl(expr_const(1, 32), mask_bits)?;
         let mask = Expr::sub(mask_bit, expr_const(1, 32))?;
